@@ -1622,7 +1622,8 @@ fn some_order_explains(case: &Case, results: &[Vec<Res>], lists: &[Vec<u64>]) ->
 fn stress_batch(seed: u64, off: u64, from: u64, n: u64, rep: &mut Report) {
     for k in from..from + n {
         let i = off + k;
-        if k % 64 == 0 {
+        // (one line per block of trials that share a case: the parent names the case by it)
+        if k == from || i % 64 == 0 {
             println!("START {k}");
             use std::io::Write;
             std::io::stdout().flush().ok();
